@@ -238,6 +238,26 @@ func report(p *Program, prop, tier string, seed int, reps []*FuncReport, evidenc
 			fmt.Fprintf(os.Stderr, "  FAILED %s (%s by %s) at %s\n      %s\n", o.Name, o.Status, o.Solver, o.Where, o.Descr)
 		}
 	}
+	// bounded stand-ins (executed lemma clients); never counted as proved
+	bounded, _ := runBounded(repo, prop, tier, seed)
+	for i := range bounded {
+		b := &bounded[i]
+		if b.Passed {
+			continue
+		}
+		name := "bounded:" + b.Name
+		if kfnd, ok := known[name]; ok {
+			knownLines = append(knownLines, fmt.Sprintf("KNOWN-FINDING: property=%s %s %s", prop, name, kfnd.What))
+			continue
+		}
+		violations++
+		path := filepath.Join(rdir, safeFile(name)+".json")
+		writeJSON(path, map[string]interface{}{"obligation": name, "kind": "bounded", "package": b.Package, "test": b.Test,
+			"replay_cmd": fmt.Sprintf("cd %s && go test -tags verif -vet=off -count=1 -v -run '^%s$' ./%s", repo, b.Test, b.Package),
+			"verifier_output": lastLines(b.Output, 60)})
+		violLines = append(violLines, fmt.Sprintf("VIOLATION property=%s replay=%s", prop, path))
+		fmt.Fprintf(os.Stderr, "  FAILED bounded check %s\n%s\n", b.Name, lastLines(b.Output, 15))
+	}
 	// every known finding must still be reported by a failing obligation; a finding that no longer fails is stale but harmless
 	sort.Strings(knownLines)
 	for _, l := range knownLines {
@@ -283,6 +303,7 @@ func report(p *Program, prop, tier string, seed int, reps []*FuncReport, evidenc
 			"unmodelled":               um,
 			"samples":                  samples,
 			"unstable":                 unstable,
+			"bounded_checks":           bounded,
 		}
 		if extra := loadExtraCoverage(prop); extra != nil {
 			for k, v := range extra {
@@ -305,6 +326,14 @@ func report(p *Program, prop, tier string, seed int, reps []*FuncReport, evidenc
 		return 1
 	}
 	return 0
+}
+
+func lastLines(s string, n int) string {
+	ls := strings.Split(strings.TrimRight(s, "\n"), "\n")
+	if len(ls) > n {
+		ls = ls[len(ls)-n:]
+	}
+	return strings.Join(ls, "\n")
 }
 
 func round3(f float64) float64 { return float64(int(f*1000+0.5)) / 1000 }
